@@ -4,6 +4,7 @@
 #define TETL_STRINGS_STRTO_INTEGER_HPP
 
 #include <etl/_cctype/isspace.hpp>
+#include <etl/_cctype/isxdigit.hpp>
 #include <etl/_concepts/integral.hpp>
 #include <etl/_concepts/signed_integral.hpp>
 #include <etl/_cstddef/size_t.hpp>
@@ -22,7 +23,8 @@ struct strto_integer_result {
 
 /// \brief The conversion behind strtol, strtoul, atoi, stoi & co. (C17 7.22.1.4).
 ///
-/// \details Skips white space and takes one optional sign, '+' or '-'. The digits are
+/// \details Skips white space, takes one optional sign, '+' or '-', and with base 16
+/// an optional "0x" or "0X" that is followed by a hexadecimal digit. The digits are
 /// converted by to_integer in the unsigned type, so to_integer (and from_chars on top
 /// of it) keeps its own grammar, which has no '+'. A '-' in front of an unsigned
 /// conversion negates in the unsigned type (strtoul("-1") is ULONG_MAX). If no
@@ -44,6 +46,13 @@ template <integral Int>
     if (pos != length and (str[pos] == '+' or str[pos] == '-')) {
         negative = str[pos] == '-';
         ++pos;
+    }
+
+    // "0x" or "0X" in front of a hexadecimal digit belongs to a number in base 16
+    // (with base 0 to_integer detects and skips it)
+    if (base == 16 and length - pos > 2 and str[pos] == '0' and (str[pos + 1] == 'x' or str[pos + 1] == 'X')
+        and etl::isxdigit(static_cast<int>(str[pos + 2])) != 0) {
+        pos += 2;
     }
 
     constexpr auto options = to_integer_options{.skip_whitespace = false, .check_overflow = true};
